@@ -24,9 +24,24 @@ def emit_kind(ctx: Ctx, ev: Ev) -> Optional[str]:
         if t[0] == 'func':
             unit = t[1]
             for n in ast.walk(unit.node):
-                if isinstance(n, ast.Call) and n.args and isinstance(n.args[0], ast.Constant) and isinstance(n.args[0].value, str) \
-                        and n.args[0].value.startswith('on_') and isinstance(n.func, ast.Attribute) and n.func.attr.startswith('_emit'):
-                    return n.args[0].value
+                if isinstance(n, ast.Call) and n.args and isinstance(n.func, ast.Attribute) and n.func.attr.startswith('_emit'):
+                    name = _const_str(ctx, unit, n.args[0])
+                    if name is not None and name.startswith('on_'):
+                        return name
+    return None
+
+
+def _const_str(ctx: Ctx, unit, expr: ast.AST) -> Optional[str]:
+    """The string an expression denotes: a literal, or a module-level constant (in this or an imported module)."""
+    if isinstance(expr, ast.Constant):
+        return expr.value if isinstance(expr.value, str) else None
+    if isinstance(expr, (ast.Name, ast.Attribute)):
+        from ..absint import Interp, Oracle
+        try:
+            v = Interp(ctx.p, Oracle()).eval(expr, {'__module__': unit.module, '__unit__': None, '__closure__': None})
+        except Exception:
+            return None
+        return v if isinstance(v, str) else None
     return None
 
 
